@@ -123,7 +123,11 @@ def r19_sibling(chk, rule="R19-sibling"):
                     if any((mir.op_place(a) or {}).get("l") == d for a in t2["args"]):
                         users.append(mir.strip_generics((t2.get("res") or "").lstrip("?")))
                 if bb.kind == "Closure" and not users:
-                    users = ["returned from a closure"]
+                    # `.map(|item| func(..))`: the Result is the closure's value; it is propagated when the adaptor keeps every
+                    # Result (map + collect::<Result<..>>), not when it filters them (filter_map, flat_map over Result, ...)
+                    filt = [mir.strip_generics((t2.get("res") or "").lstrip("?")).split("::")[-1] for bj, t2 in b0.calls()
+                            if re.search(r"::(filter_map|flat_map|find_map|map_while|scan)$", mir.strip_generics((t2.get("res") or "").lstrip("?")))]
+                    users = ["closure value passed through %s" % ",".join(sorted(set(filt)))] if filt else ["core::ops::Try::branch"]
                 if not users or not all(u.endswith("Try>::branch") or u.endswith("Try::branch") for u in users):
                     chk.add(Finding("R19-prop", "R19-prop::%s::%s" % (fid, ",".join(sorted(set(u.split("::")[-1] for u in users)) or ["dropped"])), "%s does not propagate the item parser's error with `?` (result goes to %s): a tagged item whose content does not match the specification is silently left out instead of making load_from_ifdata return no value" % (fid, sorted(set(users)) or "nothing"), bb.where(t["ln"])))
     chk.rule("R19-prop", "calls of the generated item parser in the typed-access helpers whose Result is propagated with `?`", np, floor=2)
